@@ -124,6 +124,10 @@ fn main() {
             let sub = Opts { prop: opts.prop.clone(), thorough: opts.thorough, seed: opts.seed, out: opts.out.clone(), replay: None, scale: 2 };
             sink.wrap = Some(("KGraph".into(), "C19".into()));
             props::c19::generate(&sub, &mut sink);
+            // equal keys from any group-by entry point meet (keyed join of two partitionings)
+            sink.wrap = None;
+            let mut rng = rng::Rng::new(opts.seed ^ 0x33);
+            props::meet::generate(&opts, &mut sink, &mut rng);
             sink.finish(props::link::RULE_C03, serde_json::json!({}));
         }
         "C02" => {
@@ -222,6 +226,26 @@ fn main() {
                 println!("ny {ny} early_flush {early}: {:?} after {:.1}s", o, t.elapsed().as_secs_f32());
             }
             std::process::exit(0);
+        }
+        "PROBE_C10B" => {
+            use pipe::*;
+            let src = Pipe::Src(true, (0..40).map(|v| (v % 9, v)).collect());
+            let side: Vec<(i64, i64)> = (0..9).map(|k| (k, 100 + k)).collect();
+            for body in [vec![Op1::JoinSideL(JVar::Inner, JLocal::Hash, side.clone()), Op1::AddState],
+                         vec![Op1::JoinSide(JVar::Inner, JLocal::Hash, side.clone()), Op1::AddState],
+                         vec![Op1::JoinSideL(JVar::Left, JLocal::SortMerge, side.clone()), Op1::AddState, Op1::Shuffle, Op1::MapAdd(1)]] {
+                let p = Pipe::Replay(Box::new(src.clone()), 4, 1_000_000_000_000, body.clone());
+                let good = match run(&p, &Deploy::Local(1), Mode::Fixed(1024), std::time::Duration::from_secs(60)) { Outcome::Done(v) => v, o => panic!("{:?}", o) };
+                for mode in [Mode::Single, Mode::Fixed(1), Mode::Adaptive(4, 5), Mode::Fixed(1024)] {
+                    for cores in [vec![2u64, 2, 2], vec![1, 1, 1], vec![1, 2]] {
+                        let mut bad = 0;
+                        for _ in 0..10 {
+                            match run(&p, &Deploy::Remote(cores.clone()), mode, std::time::Duration::from_secs(60)) { Outcome::Done(v) if v == good => {}, _ => bad += 1 }
+                        }
+                        println!("body {:?} mode {:?} cores {:?}: wrong {bad}/10", body.iter().map(|o| o.coq().chars().take(14).collect::<String>()).collect::<Vec<_>>(), mode, cores);
+                    }
+                }
+            }
         }
         "PROBE_F12" => {
             use pipe::*;
